@@ -1,7 +1,7 @@
 CONSTANTS
   Variant = "response_ignored"
   Family = "render"
-  Size = "q"
+  Size = "m"
 INIT Init
 NEXT Next
 CHECK_DEADLOCK FALSE
